@@ -525,6 +525,11 @@ func init() {
 		for _, id := range []string{"C06", "C07"} {
 			add(id, oa, roQ, roPool)
 		}
+		ao := HSpec{Pkg: txPkg, Func: "VerifHarness_AddOrder_Deliver", Tier: "quick", Configs: []map[string]int64{op("sellToken", 0), op("sellToken", 1)},
+			Bounds: "one CheckTx+DeliverTx of AddLimitOrder by A in pool (token, base); both volumes symbolic, fee in the base coin"}
+		for _, id := range []string{"C14", "C05", "C01", "C02", "C03", "C06", "C07"} {
+			add(id, oa, ao)
+		}
 	}
 
 	// ---------------------------------------------------------- C11 export / import, C21 checks
